@@ -229,7 +229,8 @@ def run(M, rec, tier, seed, k, n):
         corner_calls(M, rec, rng, 20000 if tier == "quick" else 250000)
         W.numpy_steps(M, rec, rng, 200 if tier == "quick" else 1500, draws=3)
         W.symbolic_steps(M, rec, rng, symvals, 12 if tier == "quick" else 80, points=2)
-        W.closed_loop(M, rec, rng, 4 if tier == "quick" else 8, 150 if tier == "quick" else 400, on_step=on_step)
+        W.inplace_pairs(M, rec, rng, 40 if tier == "quick" else 400, allow_inf=False)
+        W.closed_loop(M, rec, rng, 6 if tier == "quick" else 12, 100 if tier == "quick" else 300, on_step=on_step)
     finally:
         sm.uninstall()
         pm.uninstall()
